@@ -30,6 +30,10 @@ UNITS = {
 UNITS["C02"] = [
     dict(kind="structural", name="c02_sql_scoping", check="sql_actor_scoping", file="crates/klukai-types/src/agent.rs",
          trusted=["heuristic SQL reading (see c03_sql_scoping)"]),
+    dict(kind="verus", name="c02_gaps", template="specs/c02_gaps.vrs",
+         under_contract=["VersionsSnapshot::compute_gaps_change"], vacuity=["compute_gaps_change"],
+         assumptions=["contract of rangemap::RangeInclusiveSet (insert/remove/get/overlapping/into_iter; lib/rangeset.vrs) and of HashSet<RangeInclusive> (set of (start,end) pairs)",
+                      "versions are SQLite INTEGERs in 1..2^63-1"]),
     dict(kind="verus", name="c02_booked", template="specs/c02_booked.vrs",
          under_contract=["BookedVersions::contains_version", "BookedVersions::last", "BookedVersions::snapshot", "BookedVersions::commit_snapshot", "BookedVersions::insert_partial"],
          vacuity=["contains_version", "snapshot", "commit_snapshot", "insert_partial"],
